@@ -23,17 +23,19 @@ func Malform(r *core.Rng, d *Doc) bool {
 	}
 	ii := idx[r.Intn(len(idx))]
 	it := &d.Items[ii]
+	it.Damaged = true
 	if it.Kind == "race" {
 		switch r.Intn(5) {
 		case 4:
 			it.NoFooter = true
-			if r.Chance(0.6) {
-				// a line that merely resembles the missing separator follows
-				l := r.Pick("===================", "================== 3 passed in 0.1s", "==================x", "================== ") + "\n"
-				rest := append([]Item{{Kind: "junk", Text: l}}, d.Items[ii+1:]...)
-				d.Items = append(d.Items[:ii+1:ii+1], rest...)
-				return true
-			}
+			// What follows a footer-less report must not be something the grammar
+			// reads as its continuation (a call, a file line, a blank line and then
+			// a section header): a line that merely resembles the missing separator,
+			// or plain text, is put right behind it.
+			l := r.Pick("===================", "================== 3 passed in 0.1s", "==================x", "================== ", "end of report", "--- FAIL: TestX") + "\n"
+			rest := append([]Item{{Kind: "junk", Text: l}}, d.Items[ii+1:]...)
+			d.Items = append(d.Items[:ii+1:ii+1], rest...)
+			return true
 		case 0:
 			it.Ops[0].Header = "Read at 0xZZ by goroutine 1:"
 		case 1:
